@@ -55,7 +55,7 @@ void harness(void) {
   VP_IN(int, in_gi);
   VP_IN(int, in_gj);
   VP_ASSUME(in_items >= -1 && in_items <= 4 && in_ntok >= 0 && in_ntok <= NTOK);
-  vp_io.fopen_fails = in_fail != 0, vp_io.header_items = in_items, vp_io.hm = HM, vp_io.hn = HN, vp_io.hp = in_p, vp_io.hnz = in_nz, vp_io.ntok = in_ntok;
+  vp_io.fopen_fails = in_fail != 0, vp_io.header_items = in_items, vp_io.hm = HM, vp_io.hn = HN, /* dimensions enumerated */ vp_io.hp = in_p, vp_io.hnz = in_nz, vp_io.ntok = in_ntok;
   for (int k = 0; k < 8; ++k) {
     VP_ASSUME(in_tok[k] > -1000 && in_tok[k] < 1000); /* VP-ASSUMPTION: JCF index tokens of magnitude < 1000 (larger ones take the same comparison branch) */
     vp_io.tok[k] = in_tok[k];
